@@ -20,8 +20,13 @@ import "strings"
 // space. The lexer has no rule for comments, and to the backend a comment is whitespace, so without this a statement
 // such as `/* c */ SELECT * FROM system.local` is not recognized as a handled system query (or as idempotent). String
 // literals ('...' and $$...$$) and quoted identifiers ("...") are copied verbatim.
+//
+// A carriage return outside of quoted text is replaced with a space as well: to the backend a lone `\r` is whitespace,
+// but the lexer only knows `\r\n` and `\n`, so `DELETE FROM t\rWHERE k = now()` was cut short at the `\r` and
+// classified as idempotent.
 func stripComments(data string) string {
-	if !strings.Contains(data, "--") && !strings.Contains(data, "//") && !strings.Contains(data, "/*") {
+	if !strings.Contains(data, "--") && !strings.Contains(data, "//") && !strings.Contains(data, "/*") &&
+		!strings.Contains(data, "\r") {
 		return data
 	}
 	var sb strings.Builder
@@ -70,6 +75,9 @@ func stripComments(data string) string {
 			}
 			sb.WriteByte(' ')
 			i = j
+		case c == '\r':
+			sb.WriteByte(' ')
+			i++
 		default:
 			sb.WriteByte(c)
 			i++
